@@ -93,6 +93,30 @@ def Tree.enum (size : Key → Nat) : Tree → M (List (List Nat) × List Key)
     if a.length ≠ b.length then throw (.crash .valueError)
     return (List.zipWith (· ++ ·) a b, ka ++ kb)
 
+/-- The KEY list `State.splits` returns next to the index tuples.  The code keeps ONE flat list while it evaluates the RPN:
+    two unprocessed operands are appended (`keys + L + R`), an unprocessed RIGHT operand is appended (`keys + R`), but an
+    unprocessed LEFT operand of a processed right operand is put in front of EVERYTHING collected so far
+    (`keys = new_keys_L + keys`) — also in front of the keys of groups that stand to its left in the splitter.  The
+    index tuples themselves are nested in splitter order, so keys and tuple components then disagree (D46). -/
+def Tree.splitsKeysAux : Tree → List Key → List Key
+  | .leaf _, ks => ks
+  | .outer l r, ks =>
+    match l, r with
+    | .leaf a, .leaf b => ks ++ [a, b]
+    | .leaf a, r' => a :: r'.splitsKeysAux ks
+    | l', .leaf b => l'.splitsKeysAux ks ++ [b]
+    | l', r' => r'.splitsKeysAux (l'.splitsKeysAux ks)
+  | .inner l r, ks =>
+    match l, r with
+    | .leaf a, .leaf b => ks ++ [a, b]
+    | .leaf a, r' => a :: r'.splitsKeysAux ks
+    | l', .leaf b => l'.splitsKeysAux ks ++ [b]
+    | l', r' => r'.splitsKeysAux (l'.splitsKeysAux ks)
+
+def Tree.splitsKeys : Tree → List Key
+  | .leaf k => [k]
+  | t => t.splitsKeysAux []
+
 /-! ### `splits_groups` / `combine_final_groups` -/
 
 /-- A group entry: an axis number or a list of axis numbers. -/
@@ -576,7 +600,10 @@ def combinedInd (size : Key → Nat) (sts : Sts) (s : St) (statesInd : List (Dic
   let fullNow := outerAll (finals ++ [s.cur])
   match fullNow.bind (Tree.remove (s.curCombAll ++ s.prevCombAll)) with
   | some combined =>
-    let (e, k) ← combined.enum size
+    let (e, _) ← combined.enum size
+    -- `keys_final` is the key list as `splits` returns it for the EXPANDED rpn (see `Tree.splitsKeys`), the tuples of
+    -- `ind_l_final` are in splitter order
+    let k := combined.splitsKeys
     -- ind_map[tuple(st[k] for k in keys_final)]: a missing key or an unknown tuple is a KeyError
     if statesInd.all fun sd => (k.map sd.get?).all Option.isSome && e.contains ((k.map sd.get?).map fun o => o.getD 0) then
       return (e, k)
